@@ -310,13 +310,29 @@ def ucase_term(u_):
                 return None
             parts.append("(mkP (%s, %s, %s) %s %d%%nat)" % (zlit(L.to_units(pp[0], ue)), zlit(L.to_units(pp[1], ue)), zlit(L.to_units(pp[2], ue)),
                                                          "true" if q["y"] == "nan" else "false", ids[q["c"]]))
+        # path model: cells identified by their path (root slot :: octants)
+        paths = {}
+        def number_paths(c, pth):
+            if c is None:
+                return
+            paths[c["addr"]] = pth
+            for o, d in enumerate(c["oct"]):
+                number_paths(d, pth + [o])
+        for ri, c in enumerate(pre):
+            number_paths(c, [ri])
+        pparts = []
+        for q, pp in zip(u_["parts"], allpos):
+            pparts.append("(((%s, %s, %s), %s), [%s])" % (zlit(L.to_units(pp[0], ue)), zlit(L.to_units(pp[1], ue)), zlit(L.to_units(pp[2], ue)),
+                                                          "true" if q["y"] == "nan" else "false", "; ".join("%d%%nat" % o for o in paths[q["c"]])))
+        proots = "; ".join("None" if c is None else "(Some %s)" % shape_term(c) for c in pre)
         expf = "; ".join("None" if c is None else "(Some %s)" % shape_term(c) for c in post)
         expp = "; ".join("(%s, %s, %s)" % tuple(zlit(L.to_units(v, ue)) for v in pp) for pp in postpos)
     except (AssertionError, OverflowError, ValueError, KeyError):
         return None
+    pterm = "(mkPC %d %d%%nat %d %d %d [%s] [%s] %d%%nat [%s] [%s])" % (uu, Lv, box.n[0], box.n[1], box.n[2], proots, "; ".join(pparts), u_["N"], expf, expp)
     return "(mkU %d %d%%nat %d %d %d %s [%s] [%s] [%s] %d%%nat [%s] [%s])" % (
         uu, Lv, box.n[0], box.n[1], box.n[2], "true" if u_["boxed"] else "false", "; ".join(cterm(c) for c in cells), roots, "; ".join(parts),
-        u_["N"], expf, expp)
+        u_["N"], expf, expp), pterm
 
 
 def shape_term(c):
@@ -348,7 +364,7 @@ def run(ctx):
     rng = ctx.rng
     check_layout(ctx)
     ctx.regen("translate_usestree.py")
-    proved = ctx.prove("C15", extra_targets=["C15/Run.vo", "C15/Run2.vo"])
+    proved = ctx.prove("C15", extra_targets=["C15/Run.vo", "C15/Run2.vo", "C15/PathRun.vo"])
 
     ntree = ctx.scale(112, 900)
     nbound = ctx.scale(60, 500)
@@ -362,10 +378,14 @@ def run(ctx):
     with ThreadPoolExecutor(max_workers=vlib.JOBS) as ex:
         results = list(ex.map(lambda s: run_driver(libdir, s), specs))
     ctx.log("ran %d histories" % len(specs))
+    import glob, shutil
+    for dtmp in glob.glob("/tmp/c15r_*"):          # temp dirs of restore histories whose driver process died
+        shutil.rmtree(dtmp, ignore_errors=True)
 
     totals = {}
     dist = {}
     ucases = []       # (label, term)
+    pcases = []
     n_upd_reinsert = n_upd_removed = 0
     tcases = []       # (label, term)
     gcases = []
@@ -419,6 +439,8 @@ def run(ctx):
             if len(ucases) < ctx.scale(60, 400):
                 t = ucase_term(u_)
                 if t is not None:
+                    t, pt_ = t
+                    pcases.append(pt_)
                     nflag = sum(1 for q in u_["parts"] if q["y"] == "nan")
                     moved = sum(1 for a, b in zip(u_["parts"], u_["post_pos"]) if (a["x"], a["y"], a["z"]) != tuple(b))
                     ucases.append(("flagged=%d moved_slots=%d N=%d" % (nflag, moved, u_["N"]), t))
@@ -447,13 +469,16 @@ def run(ctx):
     for c0 in range(0, len(ucases), uchunk):
         body = HEAD + "Open Scope Z_scope.\nDefinition cases : list ucase := [\n" + ";\n".join(t for _, t in ucases[c0:c0 + uchunk]) + "].\nEval vm_compute in (bad_u cases).\n"
         jobs.append(("c15_upd_%d" % (c0 // uchunk), body, "upd", c0))
+    for c0 in range(0, len(pcases), uchunk):
+        body = HEAD + "From RV Require Import C15.PathModel C15.PathRun.\nOpen Scope Z_scope.\nDefinition cases : list pcase := [\n" + ";\n".join(pcases[c0:c0 + uchunk]) + "].\nEval vm_compute in (bad_p cases).\n"
+        jobs.append(("c15_pth_%d" % (c0 // uchunk), body, "pth", c0))
     fchunk = 40
     for name, lst in (("grav", gcases), ("bnd", bcases)):
         for c0 in range(0, len(lst), fchunk):
             body = HEAD + "Open Scope float_scope.\nDefinition cases : list (list float * list float) := [\n" + ";\n".join(lst[c0:c0 + fchunk]) + "].\nEval vm_compute in (bad_cases cases).\n"
             jobs.append(("c15_%s_%d" % (name, c0 // fchunk), body, name, c0))
     outs = vlib.coq_eval_many([(j[0], j[1]) for j in jobs], timeout=600)
-    bad = {"tree": [], "grav": [], "bnd": [], "upd": []}
+    bad = {"tree": [], "grav": [], "bnd": [], "upd": [], "pth": []}
     corr_ok = True
     for (name, ok, out), j in zip(outs, jobs):
         b = vlib.parse_coq_list_nat(out) if ok else None
@@ -469,6 +494,9 @@ def run(ctx):
                    "reb_simulation_update_tree on %d pre/post dumps: same tree (shape, counts, leaf indices), same particle order, same N "
                    "(%d flagged particles removed, %d array slots changed by removal/re-insertion)" % (len(ucases), n_upd_removed, n_upd_reinsert),
                    corr_ok and not bad["upd"] and len(ucases) > 0, "mismatching cases: %s" % [(i, ucases[i][0]) for i in bad["upd"][:10]])
+    ctx.obligation("correspondence:C15 PATH model of the in-place update (cells = paths, back pointers = paths; the model the update theorems are about) == "
+                   "reb_simulation_update_tree on the same %d pre/post dumps" % len(pcases),
+                   corr_ok and not bad["pth"] and len(pcases) > 0, "mismatching cases: %s" % bad["pth"][:10])
     ctx.obligation("correspondence:C15 gravity data model(binary64) == dumped m,mx,my,mz of every cell bit-for-bit on %d root cells" % len(gcases),
                    corr_ok and not bad["grav"] and len(gcases) > 0, "mismatching cases: %s" % bad["grav"][:10])
     ctx.obligation("correspondence:C15 boundary model(binary64) == reb_boundary_check bit-for-bit on %d steps (periodic/shear/open removal order)" % len(bcases),
